@@ -34,6 +34,8 @@ FUNCS = [
     ("ubxreader.py", "UBXReader.__next__"),
     ("socket_wrapper.py", "SocketWrapper._recv"), ("socket_wrapper.py", "SocketWrapper.read"),
     ("socket_wrapper.py", "SocketWrapper.readline"),
+    ("ubxmessage.py", "UBXMessage.config_set"), ("ubxmessage.py", "UBXMessage.config_del"),
+    ("ubxmessage.py", "UBXMessage.config_poll"),
 ]
 
 
@@ -153,6 +155,9 @@ class Tr:
             kwn = self.lst([self.nm(k.arg) for k in n.keywords])
             kwv = self.lst([self.E(k.value) for k in n.keywords])
             d = self.dotted(n.func)
+            if d == "isinstance" and len(n.args) == 2 and isinstance(n.args[1], ast.Name) and not n.keywords:
+                # `isinstance(x, T)` with a built-in type name: the type is passed by name
+                return f"(.call {self.nm('isinstance')} [{self.E(n.args[0])}, (.str {self.nm(n.args[1].id)})] [] [])"
             if d is not None:
                 if d.endswith("Error") or d in ("StopIteration",):
                     # exception constructors: the message text is not part of any modelled behaviour
